@@ -21,6 +21,10 @@ func VFRun(env *vfc.Env) {
 		vfC17(env)
 	case "db.c07":
 		vfC07(env)
+	case "db.c06kill":
+		vfC06Kill(env)
+	case "db.c06victim":
+		vfC06Victim(env)
 	case "db.c06":
 		vfC06(env)
 	case "db.crashb":
